@@ -38,12 +38,14 @@
         C08_concurrent_object_exact (per reassembler object: linearization of its r.process calls
         and done-mark; consistent fragments -> delivered exactly once, by the call that first
         completes the coverage in P2 order, byte for byte; every other call returns nothing),
-        C08_concurrent_completed_returns_nothing / C08_concurrent_done_returns_nothing (any
-        arguments: a call on a completed-but-not-yet-released, or on a released, reassembler
+        C08_concurrent_completed_returns_nothing (any arguments: a call on a completed-but-not-
+        yet-released reassembler [RComp: the branch added by 3ed1739] or on a released one [r.done]
         returns nothing and changes nothing),
         C08_concurrent_return_is_p2 (Process returns what its r.process call returned),
         C08_concurrent_example (hypotheses satisfiable: a 3-goroutine schedule through the
-        branch added by 3ed1739)
+        branch added by 3ed1739; FragConcSeqP.sequential_refinement_example for the refinement),
+        C08_concurrent_size_drift_reachable (a documented limit outside the property text: f.size
+        accounting is not an invariant under concurrency)
 
    Datagram sizes: the theorems hold for 1 <= |D| <= 65535, which includes the IPv4 maximum
    payload 65515.  time.Now() is the explicit [c_now] of each call.  The theorems above the
@@ -288,15 +290,11 @@ Theorem C08_concurrent_object_exact : forall D high low timeout progs sched o,
 Proof. exact concurrent_object_exact. Qed.
 Print Assumptions C08_concurrent_object_exact.
 
-Theorem C08_concurrent_completed_returns_nothing : forall r first last more pl, RComp r ->
+Theorem C08_concurrent_completed_returns_nothing : forall r first last more pl,
+  RComp r \/ r_done r = true ->
   rprocess r first last more pl = (r, mkPres [] false 0 false false).
-Proof. exact rprocess_completed. Qed.
+Proof. exact rprocess_completed_or_done. Qed.
 Print Assumptions C08_concurrent_completed_returns_nothing.
-
-Theorem C08_concurrent_done_returns_nothing : forall r first last more pl, r_done r = true ->
-  rprocess r first last more pl = (r, mkPres [] false 0 false false).
-Proof. exact rprocess_done. Qed.
-Print Assumptions C08_concurrent_done_returns_nothing.
 
 Theorem C08_concurrent_return_is_p2 : forall high low timeout progs sched pre t res done post,
   trace (cf_s (crun0 high low timeout progs sched)) = pre ++ EvRet t res done :: post ->
@@ -320,13 +318,10 @@ Theorem C08_concurrent_example :
 Proof. exact concurrent_example. Qed.
 Print Assumptions C08_concurrent_example.
 
-Theorem C08_concurrent_refinement_example :
-  let progs := [[raceA; raceB]; [raceB]] in
-  let bs := [0; 1; 0; 1]%nat in
-  map snd (serialize progs bs) = [raceA; raceB; raceB] /\
-  rets (trace (cf_s (crun0 1000 500 10 progs (blocks bs)))) =
-    [(0%nat, ([], false, false)); (1%nat, (raceD, true, false)); (0%nat, ([], false, false))] /\
-  snd (run (newFragmentation 1000 500 10) [raceA; raceB; raceB]) =
-    [([], false, false); (raceD, true, false); ([], false, false)].
-Proof. exact sequential_refinement_example. Qed.
-Print Assumptions C08_concurrent_refinement_example.
+(* documents a limit (not a clause of the property): f.size accounting is not an invariant of
+   concurrent executions; see the comment in Proofs/FragConcP.v *)
+Theorem C08_concurrent_size_drift_reachable :
+  let s := cf_s (crun0 1000 500 10 driftProgs [0; 0; 1; 0; 1; 1]%nat) in
+  c_size s = 16 /\ map (fun o => r_size (getobj s o)) (c_list s) = [8] /\ panics (trace s) = [].
+Proof. exact concurrent_size_drift_reachable. Qed.
+Print Assumptions C08_concurrent_size_drift_reachable.
